@@ -2,7 +2,7 @@
    input, the five ranges are ordered and do not overlap, and they lie inside the input. *)
 From Coq Require Import List NArith Bool Arith Lia.
 Import ListNotations.
-Require Import V.Regex V.Parse V.ParseProofs V.Auth V.AuthProofs.
+Require Import V.Regex V.Abnf V.Parse V.ParseProofs V.Auth V.AuthProofs V.BridgePaths V.C02Bridge V.C02Proofs V.C03Bridge V.Utf8.
 Local Open Scope nat_scope.
 
 Definition wfr (x : option range) : Prop := match x with Some (a, b) => a <= b | None => True end.
@@ -45,3 +45,31 @@ Proof.
     rewrite ?app_length; cbn [length]; repeat split; lia.
 Qed.
 Print Assumptions C20_authority_ranges.
+
+(* GRAMMAR LEVEL: the same for EVERY string of the RFC languages (no well-formedness hypothesis left): the ranges that the
+   decomposition of any URI / IRI reference returns are well-formed, ordered, disjoint and inside the text -- for IRI
+   references also on the UTF-8 BYTES the implementation scans -- and likewise for every authority of either family *)
+Theorem C20_uri_reference_ranges : forall s, L (IRI_reference U U) s -> ordered (reference_parts s 0) (length s).
+Proof. intros s H. destruct (uri_reference_decomposition s H) as (p & _ & -> & E & _). rewrite E. apply expected_ordered. Qed.
+Print Assumptions C20_uri_reference_ranges.
+Theorem C20_iri_reference_ranges : forall s, L (IRI_reference I C02Bridge.P) s -> ordered (reference_parts s 0) (length s).
+Proof. intros s H. destruct (iri_reference_decomposition s H) as (p & _ & -> & E & _). rewrite E. apply expected_ordered. Qed.
+Print Assumptions C20_iri_reference_ranges.
+Theorem C20_iri_reference_byte_ranges : forall s, L (IRI_reference I C02Bridge.P) s -> ordered (reference_parts (utf8 s) 0) (length (utf8 s)).
+Proof. intros s H. destruct (iri_reference_bytes s H) as (p & _ & _ & E0 & E & _). rewrite E, E0. apply expected_ordered. Qed.
+Print Assumptions C20_iri_reference_byte_ranges.
+
+Lemma aexpected_aordered a : aordered (aexpected a) (length (acompose a)).
+Proof.
+  destruct a as [u h po].
+  unfold aordered, aexpected, acompose, olen, wfr, ends_before, starts_after.
+  cbn [ap_userinfo ap_host ap_port a_userinfo a_host a_port fst snd].
+  destruct u, po; cbn [option_map opt_post opt_pre]; rewrite ?app_length; cbn [length]; rewrite ?app_length; cbn [length];
+    rewrite ?app_length; cbn [length]; repeat split; lia.
+Qed.
+Theorem C20_uri_authority_ranges : forall s, L (iauthority U) s -> aordered (authority_parts s) (length s).
+Proof. intros s H. destruct (uri_authority_decomposition s H) as (a & _ & -> & E & _). rewrite E. apply aexpected_aordered. Qed.
+Print Assumptions C20_uri_authority_ranges.
+Theorem C20_iri_authority_ranges : forall s, L (iauthority I) s -> aordered (authority_parts s) (length s).
+Proof. intros s H. destruct (iri_authority_decomposition s H) as (a & _ & -> & E & _). rewrite E. apply aexpected_aordered. Qed.
+Print Assumptions C20_iri_authority_ranges.
